@@ -18,7 +18,7 @@ OneBlocks == {b \in BlkCands : Len(b) <= 1}
 Prefix == \/ \E e \in Ent : Submit(e, None)
           \/ \E b \in OneBlocks : AddBlock(b)
           \/ Tick
-          \/ (Mode = "hist" /\ (DelBlock \/ SweepNow \/ (\E S \in RmCands : Remove(S)) \/ (\E b \in OneBlocks : ReorgInv(b))))
+          \/ (Mode = "hist" /\ (DelBlock \/ SweepNow \/ (\E S \in RmCands : Remove(S)) \/ (\E b \in {x \in RBlkCands : Len(x) <= 1} : ReorgInv(b))))
 Final == \/ (Mode = "admit" /\ \E e \in Ent : \E d \in DefectsOf(e) \cup {None} : Submit(e, d))
          \/ (Mode = "list" /\ \E n \in 1..(Cap + 1) : \E excl \in QryCands : GetTxList(n, excl))
          \/ (Mode = "hist" /\ Prefix)
